@@ -39,7 +39,7 @@ MUTANTS = [
       "\t\t\tfor _, settings := range outputSettingsSlice {\n\t\t\t\tsettings.bufferer.Destroy()\n\t\t\t}"),
     M("c01-r5-onstopped-first", "C01", "C01.R5", PIPE, "\t\t\tlo.ForEach(outputSettingsSlice, func(settings outputWorkerSettings, _ int) {\n\t\t\t\tsettings.bufferer.Destroy()\n\t\t\t})\n\t\t\tonStopped()",
       "\t\t\tonStopped()\n\t\t\tlo.ForEach(outputSettingsSlice, func(settings outputWorkerSettings, _ int) {\n\t\t\t\tsettings.bufferer.Destroy()\n\t\t\t})", "process exits while buffers are still saving"),
-    M("c01-r6-remove-on-leftover", "C01", "C01.R6", CMAN, "\tman.operator.UnloadChunk(&chunk)\n\tman.metrics.pendingChunks.Dec()\n\tman.metrics.leftoverChunksTotal.Inc()", "\tman.operator.UnloadChunk(&chunk)\n\tman.operator.RemoveChunk(chunk)\n\tman.metrics.pendingChunks.Dec()\n\tman.metrics.leftoverChunksTotal.Inc()", "stop with unacknowledged chunks"),
+    M("c01-r6-remove-on-leftover", "C01", "C01.R6", CMAN, "\tman.metrics.pendingChunks.Dec()\n\tman.metrics.leftoverChunksTotal.Inc()", "\tman.operator.RemoveChunk(chunk)\n\tman.metrics.pendingChunks.Dec()\n\tman.metrics.leftoverChunksTotal.Inc()", "stop with unacknowledged chunks"),
     M("c01-r7-skip-output-window", "C01", "C01.R7", FEED, "\tfor chunk := range feeder.outputChannel {\n\t\t// scopelint:ignore\n\t\tif feeder.chunkMan.UnloadOrDropChunk(&chunk) {\n\t\t\tnumSaved++\n\t\t} else {\n\t\t\tnumDropped++\n\t\t}\n\t}", "\tfor range feeder.outputChannel {\n\t\tnumDropped++\n\t}", "stop with chunks in the in-memory window"),
     M("c01-r7-forget-chunk-in-hand", "C01", "C01.R7", FEED, "\tif lastInputChunk.ID != \"\" {\n\t\tif feeder.chunkMan.UnloadOrDropChunk(&lastInputChunk) {\n\t\t\tnumSaved++\n\t\t} else {\n\t\t\tnumDropped++\n\t\t}\n\t}\n", "\t_ = lastInputChunk\n", "stop while the feeder blocks on a full output window"),
     M("c01-r8-feeder-before-recovery", "C01", "C01.R8", BUF, "\tbuf.recoverExistingChunks()\n\tgo buf.feeder.Run()", "\tgo buf.feeder.Run()\n\tbuf.recoverExistingChunks()", "restart with queued files while new chunks arrive"),
@@ -171,4 +171,27 @@ MUTANTS += [
     M("c18-r4-wait-before-close", "C18", "C18.R4", BUF, "\tclose(buf.inputChannel)\n\tbuf.inputClosed.Signal()\n\n\tbuf.logger.Infof(\"waiting for feeder: in=%d out=%d\", len(buf.inputChannel), buf.feeder.NumOutput())\n\tif !buf.feeder.Stopped().Wait(runTimeout) {\n\t\tbuf.logger.Errorf(\"BUG: couldn't stop feeder in time. stack=%s\", util.Stack())\n\t}",
       "\tbuf.logger.Infof(\"waiting for feeder: in=%d out=%d\", len(buf.inputChannel), buf.feeder.NumOutput())\n\tif !buf.feeder.Stopped().Wait(runTimeout) {\n\t\tbuf.logger.Errorf(\"BUG: couldn't stop feeder in time. stack=%s\", util.Stack())\n\t}\n\tclose(buf.inputChannel)\n\tbuf.inputClosed.Signal()", "every shutdown waits the full timeout and then leaves chunks unsaved"),
     M("c18-r6-double-signal", "C18", "C18.R6", FEED, "func (feeder *outputFeeder) Run() {\n", "func (feeder *outputFeeder) Run() {\n\tdefer feeder.stopped.Signal()\n", "every shutdown: close of closed channel panics after the chunks were saved"),
+]
+
+TEXTRACT = "transform/textract/textract.go"
+TSPECIAL = "transform/textractspecial/textractspecial.go"
+FFCONF = "output/fluentdforward/config.go"
+DDCONF = "output/datadog/config.go"
+RUNCONF = "run/config.go"
+STPL = "util/stringtemplate/stringtemplate.go"
+TIF = "transform/tif/tif.go"
+
+MUTANTS += [
+    # ---------------- C16
+    M("c16-r1-revert-extract-capture-check", "C16", "C16.R1", TEXTRACT, "\t\tif _, err := schema.CreateFieldLocator(name); err != nil {", "\t\tif _, err := schema.CreateFieldLocator(c.Key); err != nil {", "extract pattern with a named capture that is not a schema field: original defect D14"),
+    M("c16-r1-revert-extractspecial-verify", "C16", "C16.R1", TSPECIAL, "\tif _, err := newStringExtractorSimple(c.getPosition(), c.Pattern, c.MaxLength); err != nil {", "\tif _, err := splitPattern(c.Pattern); err != nil {", "pattern ':[]': original defect D16"),
+    M("c16-r1-revert-envfields-check", "C16", "C16.R1", FFCONF, "\tfor _, field := range cfg.Serialization.EnvironmentFields {\n\t\tif _, err := schema.CreateFieldLocator(field); err != nil {\n\t\t\treturn fmt.Errorf(\".serialization.environmentFields: Field is invalid: %w\", err)\n\t\t}\n\t}\n\n", "", "unknown environment field: original defect D17"),
+    M("c16-r1-revert-datadog-url-check", "C16", "C16.R1", DDCONF, "\tif _, err := http.NewRequest(http.MethodPost, cfg.Upstream.Address, nil); err != nil {\n\t\treturn fmt.Errorf(\"invalid datadog api address: %w\", err)\n\t}\n", "\t_, _ = http.MethodPost, fmt.Sprint\n", "malformed datadog address: original defect D26"),
+    M("c16-r1-verify-wrong-key", "C16", "C16.R1", TSPECIAL, "\tif _, err := schema.CreateFieldLocator(c.DestKey); err != nil {", "\tif _, err := schema.CreateFieldLocator(c.Key); err != nil {", "extractHead with an unknown destKey"),
+    M("c16-r1-drop-nested-verify", "C16", "C16.R", TIF, "\treturn bsupport.VerifyTransformConfigs(c.Then, schema, \".then\")", "\treturn nil", "an invalid step nested inside 'if … then'"),
+    M("c16-r1-enum-accepts-unhandled", "C16", "C16.R1", FFCONF, "\tcase forwardprotocol.ModeCompressedPackedForward:\n\tdefault:\n\t\treturn fmt.Errorf(\".messageMode: '%s' is not a valid mode\", cfg.MessageMode)", "\tcase forwardprotocol.ModeCompressedPackedForward:\n\tcase \"Json\":\n\tdefault:\n\t\treturn fmt.Errorf(\".messageMode: '%s' is not a valid mode\", cfg.MessageMode)", "messageMode: Json accepted, Fatalf in NewChunkMaker"),
+    B("c16-r1-benign-reorder-checks", "C16", "transform/ttruncate/ttruncate.go", "\tif c.MaxLength <= 0 {\n\t\treturn fmt.Errorf(\".maxLength must be larger than zero: %d\", c.MaxLength)\n\t}\n\tif len(c.Suffix) == 0 {\n\t\treturn fmt.Errorf(\".suffix is unspecified\")\n\t}", "\tif len(c.Suffix) == 0 {\n\t\treturn fmt.Errorf(\".suffix is unspecified\")\n\t}\n\tif c.MaxLength <= 0 {\n\t\treturn fmt.Errorf(\".maxLength must be larger than zero: %d\", c.MaxLength)\n\t}"),
+    M("c16-r2-revert-template-panic", "C16", "C16.R2", STPL, "\t\tparamStart, err = strconv.Atoi(paramStartStr)\n\t\tif err != nil {\n\t\t\treturn nil, err\n\t\t}", "\t\tparamStart, err = strconv.Atoi(paramStartStr)\n\t\tif err != nil {\n\t\t\tpanic(err)\n\t\t}", "template slice bound out of int range: original defect D15"),
+    M("c16-r3-revert-orchestration-nil-check", "C16", "C16.R3", RUNCONF, "\tif conf.Orchestration.Value == nil {\n\t\treturn conf, schema, stats, fmt.Errorf(\"orchestration is unspecified\")\n\t}\n", "", "configuration file without an orchestration section: original defect D18"),
+    M("c16-r4-skip-transformations", "C16", "C16.R4", RUNCONF, "\tif err := bsupport.VerifyTransformConfigs(conf.Transformations, schema, \"transforms\"); err != nil {\n\t\treturn conf, schema, stats, err\n\t}\n", "\t_ = bsupport.VerifyTransformConfigs\n", "any invalid top-level transform"),
 ]
